@@ -1219,7 +1219,7 @@ def sites():
         bad = "; ".join(r["site"].split(": ")[-1] for r in recs if not r["ok"])
         T.write_generated("C16Cut", f"/- translation of the current tree FAILED ({bad}): no definitions are emitted, the bridges cannot build -/\n"
                           "end Mouette.Generated.C16\n", header=HEADER)
-    return recs + [dual_site(), span_site()]
+    return recs + [dual_site(), span_site(), spanf_site()]
 
 
 # ------------------------------------------------------------------------------------------------------------------
@@ -1236,7 +1236,7 @@ class _Alpha(ast.NodeTransformer):
         return self.m[name]
 
     def visit_FunctionDef(self, n):
-        if n.name != "_build_singularity_spanning_tree_no_features": n.name = self._b(n.name)
+        if not n.name.startswith("_build_singularity_spanning_tree_"): n.name = self._b(n.name)
         for a in n.args.args:
             if a.arg != "self": a.arg = self._b(a.arg)
         n.returns = None
@@ -1250,8 +1250,8 @@ class _Alpha(ast.NodeTransformer):
         return n
 
 
-def _span_normal_form(tree):
-    fn = T.find_def(tree, f"{CLS}._build_singularity_spanning_tree_no_features")
+def _span_normal_form(tree, name="_build_singularity_spanning_tree_no_features"):
+    fn = T.find_def(tree, f"{CLS}.{name}")
     fn = Norm().visit(copy.deepcopy(fn))
     def clean(stmts):
         out = []
@@ -1265,7 +1265,7 @@ def _span_normal_form(tree):
     al = _Alpha()
     class Binder(ast.NodeVisitor):
         def visit_FunctionDef(self, n):
-            if n.name != "_build_singularity_spanning_tree_no_features": al._b(n.name)
+            if not n.name.startswith("_build_singularity_spanning_tree_"): al._b(n.name)
             for a in n.args.args:
                 if a.arg != "self": al._b(a.arg)
             self.generic_visit(n)
@@ -1337,4 +1337,34 @@ def span_site():
     else:
         T.write_generated("C16Span", "/- translation of the current tree FAILED: no definitions are emitted, the bridges cannot build -/\n"
                           "end Mouette.Generated.C16P\n", header=SPAN_HEADER)
+    return r
+
+# ------------------------------------------------------------------------------------------------------------------
+# _build_singularity_spanning_tree_with_features  (round 9)  ->  Generated/C16SpanF.lean   (same statement-by-statement site)
+# ------------------------------------------------------------------------------------------------------------------
+SPANF_TEMPLATE = ["    v1 = self.input_mesh.edges.create_attribute('singularity_tree', bool)", '    if len(self.singularities) == 0:', '        return v1', '    v2 = set()', '    v3 = set()', '    for v4 in self.singularities:', '        v5 = set(self.feat_detector.feature_vertices) | v3', '        v6, v7 = shortest_path_to_vertex_set(self.input_mesh, v4, v5, weights=self.edge_lengths)', '        if v6 in self.feat_detector.feature_vertices:', '            v2.add(v6)', '        v3.update(v7)', '        for v8 in range(len(v7) - 1):', '            v9, v4 = (v7[v8], v7[v8 + 1])', '            v10 = self.input_mesh.connectivity.edge_id(v9, v4)', '            v1[v10] = True', '    v2 = list(v2)', '    v11 = deque()', '    v12 = dict([(v4, False) for v4 in self.feat_detector.feature_vertices])', '    v13 = dict([(v4, None) for v4 in self.feat_detector.feature_vertices])', '    for v4 in self.input_mesh.boundary_vertices:', '        if v4 in v12:', '            v11.append((v4, None))', '    for v4 in v2:', '        v11.append((v4, None))', '    while 0 < len(v11):', '        v4, v14 = v11.popleft()', '        if v12[v4]:', '            continue', '        v12[v4] = True', '        v13[v4] = v14', '        if v14 is not None:', '            v10 = self.input_mesh.connectivity.edge_id(v4, v14)', '            v1[v10] = True', '        for v10 in self.input_mesh.connectivity.vertex_to_edges(v4):', '            if v10 in self.feat_detector.feature_edges:', '                v15 = self.input_mesh.connectivity.other_edge_end(v10, v4)', '                if not v12[v15]:', '                    v11.append((v15, v4))', '    return v1']
+
+SPANF_LEAN = '/-- `if len(self.singularities)==0: return edge_flags` -/\ndef earlyReturn (sing : List Nat) : Bool := sing.length == 0\n\n/-- first loop: per singularity, the edges `edge_id(path[i], path[i+1])`, `i in range(len(path)-1)`, of its path are flagged -/\ndef pathFlags (path : List Nat) : List (Nat × Nat) :=\n  (List.range (path.length - 1)).map (fun i => (path.getD i 0, path.getD (i + 1) 0))\n\n/-- the roots pushed with `prev = None`: border vertices that are feature vertices, then `closest_v` -/\ndef bfsInit (borderFeat closest : List Nat) : BSt :=\n  { visited := [], parent := [], flags := [], queue := borderFeat.map (fun v => (v, none)) ++ closest.map (fun v => (v, none)) }\n\n/-- `for e in vertex_to_edges(v): if e in feature_edges: nv = other_edge_end(e,v); if not visited[nv]: queue.append((nv,v))` -/\ndef bfsPush (featNbrs : Nat → List Nat) (v : Nat) (s : BSt) : BSt :=\n  (featNbrs v).foldl (fun s nv => if !(s.visited.contains nv) then { s with queue := s.queue ++ [(nv, some v)] } else s) s\n\n/-- one iteration of `while len(queue)>0` -/\ndef bfsBody (featNbrs : Nat → List Nat) (s : BSt) : BSt :=\n  match s.queue with\n  | [] => s\n  | (v, prev) :: q =>\n    let s := { s with queue := q }\n    if s.visited.contains v then s else\n    let s := { s with visited := s.visited ++ [v] }\n    let s := { s with parent := s.parent ++ [(v, prev)] }\n    let s := match prev with\n      | some p => { s with flags := s.flags ++ [(v, p)] }\n      | none => s\n    bfsPush featNbrs v s\n\n/-- the loop, on a fuel argument -/\ndef bfsWhile (featNbrs : Nat → List Nat) : Nat → BSt → BSt\n  | 0, s => s\n  | fuel + 1, s => if decide (0 < s.queue.length) then bfsWhile featNbrs fuel (bfsBody featNbrs s) else s\n'
+
+SPANF_HEADER = 'import Mouette.Model.SpanSource\nnamespace Mouette.Generated.C16F\nopen Mouette Mouette.SpanSrc\n\n'
+
+
+def spanf_site():
+    tree, _ = T.load(FILE)
+    box = {}
+    def run():
+        nf = _span_normal_form(tree, "_build_singularity_spanning_tree_with_features")
+        if nf != SPANF_TEMPLATE:
+            for k, (a, b) in enumerate(zip(nf + ["<end>"] * 80, SPANF_TEMPLATE + ["<end>"] * 80)):
+                if a != b:
+                    raise TranslateError(f"_build_singularity_spanning_tree_with_features: statement {k} of the normalised body is `{a.strip()[:90]}`, "
+                                         f"expected `{b.strip()[:90]}`")
+        box["t"] = SPANF_LEAN; return "ok"
+    r = T.site("cutting.py: SingularityCutter._build_singularity_spanning_tree_with_features (paths to the feature graph, breadth-first forest on it)", run)
+    if r["ok"]:
+        _, sha = T.write_generated("C16SpanF", box["t"] + "\nend Mouette.Generated.C16F\n", header=SPANF_HEADER)
+        r["detail"] = sha
+    else:
+        T.write_generated("C16SpanF", "/- translation of the current tree FAILED: no definitions are emitted, the bridges cannot build -/\n"
+                          "end Mouette.Generated.C16F\n", header=SPANF_HEADER)
     return r
